@@ -33,8 +33,8 @@ class CancellableAction(Future):
     An action that can be launched and potentially cancelled
     """
 
-    def __init__(self, action: Callable[..., Any], cookie: Any = None):
-        super().__init__()
+    def __init__(self, action: Callable[..., Any], cookie: Any = None, loop: Optional[asyncio.AbstractEventLoop] = None):
+        super().__init__(loop=loop)
         self._action = action
         self._cookie = cookie
 
